@@ -164,7 +164,8 @@ class SysSim(Engine):
         for _ in range(n_rounds):
             ops.append(self._gen_check(rng, world))
             if rng.chance(0.75):
-                ops.append({"op": "fault", "kind": rng.weighted([("delta_big", 4), ("delta_small", 3), ("nan", 2), ("neg_big", 2), ("neg_small", 1)]),
+                ops.append({"op": "fault", "kind": rng.weighted([("delta_big", 3), ("delta_small", 3), ("delta_just_above", 3), ("delta_0p2", 1), ("delta_1p5", 1), ("delta_4", 1),
+                                                  ("nan", 2), ("neg_big", 2), ("neg_small", 1)]),
                             "arr": rng.randint(0, 50), "role": rng.choice(["flow", "flow", "inflow", "outflow"]), "entry": rng.randint(0, 10 ** 6),
                             "sign": rng.choice([1, -1])})
                 ops.append(self._gen_check(rng, world))
@@ -240,7 +241,7 @@ class SysSim(Engine):
         cap = 120 if tier == "quick" else 2000
         for a, (role, size) in enumerate(sizes):
             for e in range(size):
-                for kind in ("delta_big", "delta_small", "nan"):
+                for kind in ("delta_big", "delta_small", "delta_just_above", "nan"):
                     if n >= cap:
                         break
                     mode = bool((a + e + n) % 2)
@@ -535,6 +536,10 @@ class SysSim(Engine):
                 new = old + op["sign"] * max(25.0, 4 * scale)       # >= 2 * every tolerance used (default, 0.5, 10.0)
             elif fk == "delta_small":
                 new = old + op["sign"] * scale / 4                  # <= tol / 2
+            elif fk == "delta_just_above":
+                new = old + op["sign"] * (3 * tol if tol > 0 else 25.0)   # just above the default tolerance
+            elif fk in ("delta_0p2", "delta_1p5", "delta_4"):
+                new = old + op["sign"] * {"delta_0p2": 0.2, "delta_1p5": 1.5, "delta_4": 4.0}[fk]   # around the explicit tolerances 0.5 / 10
             elif fk == "neg_big":
                 new = -max(25.0, 4 * scale)
             else:  # neg_small
